@@ -188,6 +188,11 @@ func (pnf *PageNumberFinder) getPageInfoAndText(link *html.Node, pageURL *nurl.U
 			return nil, ""
 		}
 
+		// A page can only be fetched over http(s).
+		if hrefURL.Scheme != "http" && hrefURL.Scheme != "https" {
+			return nil, ""
+		}
+
 		hrefURL, err = nurl.Parse(linkHref)
 		if err != nil {
 			return nil, ""
